@@ -287,7 +287,9 @@ impl FromStr for KeyName {
                 && f.len() > 1
                 && string[1..].chars().all(|c| c.is_ascii_digit()) =>
             {
-                let index = string[1..].parse().expect("coding error");
+                let index = string[1..]
+                    .parse()
+                    .map_err(|_| Error::ParseError("KeyName", string.to_string()))?;
                 KeyName::F(index)
             }
             cs if cs.chars().count() == 1 => {
